@@ -134,11 +134,12 @@ class HistoryLearner(Learner):
 
 class FaultyLearner(Learner):
     """Delegates to `inner`; raises InjectedFault(msg) at `where` in {'params','predict','learn'} on call number `at` (0-based)."""
-    def __init__(self, inner, where, at, msg):
+    def __init__(self, inner, where, at, msg, batches=False):
         self.inner = inner
         self.where = where
         self.at = at
         self.msg = msg
+        self.batches = batches      # pass batched calls on to a batch-capable inner learner (and count them)
         self.calls = {"predict": 0, "learn": 0}
 
     @property
@@ -159,13 +160,16 @@ class FaultyLearner(Learner):
     # The wrapper takes no batches: a batched call fails visibly *before* it counts, so SafeLearner falls back to row-by-row calls
     # and the j-th per-row call is the one that raises (an InjectedFault raised by the batched probe itself would be absorbed by
     # that fallback by design and the evaluation would succeed).
+    # With batches=True (inner learner is batch-capable) batched calls are counted and passed on: the fault is ONE-SHOT (the
+    # counter advances before raising), so a caller that retried the call would succeed - coba must not retry once the batch
+    # convention is established; `at` >= 1 is used there because the very first batched call is a probe by design.
     def predict(self, context, actions):
-        if is_batch(actions) or is_batch(context): raise TypeError("FaultyLearner takes no batches")
+        if not self.batches and (is_batch(actions) or is_batch(context)): raise TypeError("FaultyLearner takes no batches")
         self._tick("predict")
         return self.inner.predict(context, actions)
 
     def learn(self, context, action, reward, probability, **kwargs):
-        if is_batch(context) or is_batch(action) or is_batch(reward): raise TypeError("FaultyLearner takes no batches")
+        if not self.batches and (is_batch(context) or is_batch(action) or is_batch(reward)): raise TypeError("FaultyLearner takes no batches")
         self._tick("learn")
         return self.inner.learn(context, action, reward, probability, **kwargs)
 
